@@ -5,7 +5,9 @@ CFG = dict(
     lean_modules=["ElysModel.Props.C15"],
     props_files=["ElysModel/Props/C15.lean"],
     pre_cmds=["cd harness && go run ./cmd/mintburn -out ../lean/ElysModel/Gen/MintBurn.lean"],
-    runs=[scn_run("c15"), hist_run(), hist_run(nq=200, sq=6, st=10, focus="cm."), gentrip_run(focus="cm.")],
+    runs=[scn_run("c15"), hist_run(), hist_run(nq=200, sq=6, st=10, focus="cm."), gentrip_run(focus="cm."),
+          # governance enables vest-now and re-points what Eden vests into (uelys / uatom / USDC); users vest-now their claimed Eden
+          dict(hist_run(nq=150, nt=300, sq=4, st=8, focus="cm."), env_quick={"VERIF_HISTS": "1", "VERIF_FOCUS": "cm.", "VERIF_GOVVEST": "1"}, env_thorough={"VERIF_HISTS": "3", "VERIF_FOCUS": "cm.", "VERIF_GOVVEST": "1"})],
     rule=HIST_RULE + "; plus the directed burner scenario (mode scn, prefix c15)",
     trusted_base=COMMON_TB + ["mint/burn sites are the x/bank coinbase/burn events of real blocks, classified by (module account, denom, enclosing message kind)"],
     assumptions=["IBC vouchers, x/mint inflation, slashing and governance burns do not occur in the generated worlds",
